@@ -149,9 +149,15 @@ class Repo:
         except (OSError, SyntaxError, UnicodeDecodeError) as e:
             raise AnalysisError(f"cannot parse {rel}: {e}")
         if pkg_root is not None:
-            # pure renames of locals are undone before any rule looks at the code (see alpha.py)
-            from . import alpha
+            # behaviour-preserving spellings are brought into one canonical form (see canon.py), and
+            # pure renames of locals are undone (see alpha.py), before any rule looks at the code
+            from . import alpha, canon
 
+            ref = alpha.reference().get(rel)
+            st = canon.canonicalise(tree, set(k for k in ref if not k.startswith("__")) if ref else None, set(ref.get("__consts__", [])) if ref else None)
+            self.canon_stats = getattr(self, "canon_stats", {})
+            for k, v in st.items():
+                self.canon_stats[k] = self.canon_stats.get(k, 0) + v
             self.renamed = getattr(self, "renamed", 0) + alpha.normalise(rel, tree)
         is_pkg = path.name == "__init__.py"
         if modname is None:
